@@ -132,7 +132,9 @@ func firstDiff(a, b []byte) int {
 
 type replyPlan struct {
 	Payloads [][]byte
-	Delay    time.Duration
+	Delay    time.Duration // before the first reply
+	Gap      time.Duration // between consecutive replies (0 = back to back)
+	SentAt   []int64       // h.Now() when reply j was handed to the socket (0 = not yet)
 }
 
 type caseState struct {
@@ -354,16 +356,30 @@ func (b *backend) handle(p []byte, from string, send func(rp []byte)) {
 	if plan == nil {
 		return
 	}
-	sendAll := func() {
-		for j, rp := range plan.Payloads {
-			rid := id
-			rid.J = j + 1
-			cs.mu.Lock()
-			cs.repSent[rid]++
-			cs.mu.Unlock()
-			run.Count("replies_sent", 1)
-			send(rp)
+	sendOne := func(j int) {
+		rid := id
+		rid.J = j + 1
+		cs.mu.Lock()
+		cs.repSent[rid]++
+		if j < len(plan.SentAt) && plan.SentAt[j] == 0 {
+			plan.SentAt[j] = h.Now()
 		}
+		cs.mu.Unlock()
+		run.Count("replies_sent", 1)
+		send(plan.Payloads[j])
+	}
+	sendAll := func() {
+		for j := range plan.Payloads {
+			sendOne(j)
+		}
+	}
+	if plan.Gap > 0 {
+		// a stream of replies spread over time, each on its own timer
+		for j := range plan.Payloads {
+			j := j
+			time.AfterFunc(plan.Delay+time.Duration(j)*plan.Gap, func() { sendOne(j) })
+		}
+		return
 	}
 	if plan.Delay > 0 {
 		time.AfterFunc(plan.Delay, sendAll)
@@ -566,9 +582,10 @@ type exSpec struct {
 	RepL      []int // reply lengths (0..2 replies)
 	RClass    int
 	Delay     time.Duration
-	LossKey   string // violation key if this light-load exchange loses its reply (default light-load-reply-lost)
-	ArriveKey string // violation key if this light-load datagram never reaches the backend (default light-load-datagram-lost)
-	Note      string // context appended to a liveness violation of this exchange
+	Gap       time.Duration // replies are sent Gap apart (a stream); 0 = all at once after Delay
+	LossKey   string        // violation key if this light-load exchange loses its reply (default light-load-reply-lost)
+	ArriveKey string        // violation key if this light-load datagram never reaches the backend (default light-load-datagram-lost)
+	Note      string        // context appended to a liveness violation of this exchange
 }
 
 // prepare registers the request and its planned replies; returns the id and payload.
@@ -577,7 +594,7 @@ func (u *user) prepare(sp exSpec) (dgID, []byte, *replyPlan) {
 	u.seq++
 	id := dgID{Tun: u.tun.Idx, User: u.Idx, Seq: u.seq}
 	req := mkPayload('Q', id, sp.L, cs.seed, cs.salt, sp.Class)
-	plan := &replyPlan{Delay: sp.Delay}
+	plan := &replyPlan{Delay: sp.Delay, Gap: sp.Gap, SentAt: make([]int64, len(sp.RepL))}
 	for j, l := range sp.RepL {
 		rid := id
 		rid.J = j + 1
@@ -668,16 +685,20 @@ func (u *user) exchange(sp exSpec, wait time.Duration, must bool) bool {
 		return false
 	}
 	run.Count("datagrams_sent", 1)
-	deadline := time.Now().Add(wait + sp.Delay)
+	span := sp.Delay // how long the backend takes to have sent every planned reply
+	if n := len(sp.RepL); n > 1 {
+		span += time.Duration(n-1) * sp.Gap
+	}
+	deadline := time.Now().Add(wait + span)
 	gotReplies := false
 	select {
 	case <-pd.done:
 		gotReplies = true
-	case <-time.After(wait + sp.Delay):
+	case <-time.After(wait + span):
 	}
 	arrived := h.Eventually(time.Until(deadline), func() bool { return cs.seenCount(id) > 0 })
 	if gotReplies && arrived {
-		if d := time.Duration(h.Now() - t0); d > 2*time.Second+sp.Delay {
+		if d := time.Duration(h.Now() - t0); d > 2*time.Second+span {
 			run.Count("slow_exchanges", 1)
 		}
 		return true
@@ -703,7 +724,7 @@ func (u *user) exchange(sp exSpec, wait time.Duration, must bool) bool {
 	if big := cs.overFrameBefore(u.tun.Idx, id); big != "" && !overFrame(sp.L) {
 		// collateral damage: an earlier payload of this tunnel did not fit the control frame
 		cs.c.Violation(overFrameKey, "light load: exchange %v (%d bytes, replies %v) of user %d did not complete within %v (request reached the backend: %v) after %s had been sent through the same tunnel (%s)",
-			id, sp.L, sp.RepL, u.Idx, wait+sp.Delay, arrived, big, u.tun.describe())
+			id, sp.L, sp.RepL, u.Idx, wait+span, arrived, big, u.tun.describe())
 		return false
 	}
 	if !arrived {
@@ -718,7 +739,7 @@ func (u *user) exchange(sp exSpec, wait time.Duration, must bool) bool {
 			key = overFrameKey
 		}
 		cs.c.Violation(key, "light load (one datagram outstanding per user): datagram %v of %d bytes sent by user %d to %s (%s) never reached the backend within %v%s",
-			id, sp.L, u.Idx, u.tun.Public, u.tun.describe(), wait+sp.Delay, sp.Note)
+			id, sp.L, u.Idx, u.tun.Public, u.tun.describe(), wait+span, sp.Note)
 		return false
 	}
 	key := "light-load-reply-lost"
@@ -734,7 +755,7 @@ func (u *user) exchange(sp exSpec, wait time.Duration, must bool) bool {
 		}
 	}
 	cs.c.Violation(key, "light load: the backend received datagram %v and sent %d replies (lengths %v, after %v) but %d (lengths %v) never reached user %d at %s within %v (%s)%s",
-		id, len(plan.Payloads), sp.RepL, sp.Delay, missing, ml, u.Idx, u.conn.LocalAddr(), wait+sp.Delay, u.tun.describe(), sp.Note)
+		id, len(plan.Payloads), sp.RepL, sp.Delay, missing, ml, u.Idx, u.conn.LocalAddr(), wait+span, u.tun.describe(), sp.Note)
 	return false
 }
 
